@@ -302,7 +302,9 @@ fn struct_init_block<'a>(input: &'a Struct, ctx: &ImplContext) -> TokenStream {
                 p.iter().map(|p| make_tuple(format!("{}{}", &x.member_str, &p.sub_path_tokens.to_string().replace(' ', "")), FieldData::ParentChildField(x, p)).0).collect()
             } else {
                 // '#' keeps the name of a plain member apart from a child path spelled the same (always the case for tuple indexes)
-                let path = x.attrs.child(&ctx.struct_attr.ty).map(|x| x.get_child_path_str(None).to_string()).unwrap_or_else(|| format!("#{}", x.member_str));
+                // (From impls read every member on its own: members keep their declaration order - grouping them by child path would
+                // reorder the arguments of a tuple struct)
+                let path = x.attrs.child(&ctx.struct_attr.ty).filter(|_| !ctx.kind.is_from()).map(|x| x.get_child_path_str(None).to_string()).unwrap_or_else(|| format!("#{}", x.member_str));
                 vec![make_tuple(path, FieldData::Field(x)).0]
             };
             fields.into_iter()
